@@ -254,6 +254,9 @@ impl Cfg {
                 }
             }
             P::C18 => {
+                // a small window with acks that never come: publishes get parked on
+                // id collisions, also at the moment the broker goes silent
+                let small_window = ch.coin(1, 4);
                 let modes: &[C18Mode] = if c.v5 {
                     &[
                         C18Mode::Answer,
@@ -294,6 +297,13 @@ impl Cfg {
                 c.c18_traffic = ch.pick(4);
                 c.n_requests = if c.c18_traffic & 1 != 0 { ch.range(1, 40) } else { 0 };
                 c.w_req = [2, 3, 1, 0, 0];
+                if small_window {
+                    c.limit = 3;
+                    c.never_pm = 150;
+                    c.order = AckOrder::Random;
+                    c.w_req = [0, 4, 1, 0, 0];
+                    c.n_requests = c.n_requests.max(12);
+                }
                 c.w_inbound = if c.c18_traffic & 2 != 0 { 2 } else { 0 };
                 c.ping = if c.c18 == C18Mode::Answer {
                     *ch.choose(&[PingMode::Prompt, PingMode::Delayed, PingMode::Delayed])
